@@ -258,7 +258,22 @@ def c1_typestate(fb, rep, clause='C12.1'):
                 ok = not any(v[2] is e for v in ns.violations[v0:])
                 rep.ob(clause, 'K3 null typestate', '%s: tbGen dereference #%d' % (f.sname, nd), ok, R.site(f, e),
                        '' if ok else ns.describe(f, (bid, i), e), f.sname)
-    rep.floor(clause, 'dereferences of tbGen', nd, 3)
+    # Vacuity guard.  Three dereferences were confirmed by hand (probeDTM's read, updateTB's reuse test and its generate call).
+    # A generator that is built into a local owner and moved into tbGen afterwards (round 20: a correct variant of that
+    # shape stopped here with exit 2) is dereferenced through the local: such dereferences count towards the floor - the
+    # owner was just made by make_unique, there is no null question to ask - while the typestate above judges what is
+    # installed at each exit.
+    member_t = next((e['recv'].get('t') for f in fb.funcs.values() if f.has_cfg and f.d.get('cls') == TT for _, _, e in f.events()
+                     if e.get('k') == 'call' and e.get('recv') is not None and ns.is_member(e['recv'])), None)
+    nl = 0
+    for f in (f for f in fb.funcs.values() if f.has_cfg and f.d.get('cls') == TT):
+        for bid, i, e in f.events():
+            r = e.get('recv') if e.get('k') == 'call' else None
+            if isinstance(r, dict) and r.get('k') == 'var' and r.get('vk') == 'local' and member_t and r.get('t') == member_t and \
+                    cname(e).split('::')[-1] in ('operator->', 'operator*'):
+                nl += 1
+    rep.floor(clause, 'dereferences of tbGen (or of a local owner of the same type)', nd + nl, 3)
+    rep.floor(clause, 'dereferences of the member tbGen', nd, 1)
 
 
 # ----------------------------------------------------------------------------- .2
